@@ -92,6 +92,27 @@ _GEN = ("TLC checks the property's declarative meaning (spec/Semantics.tla) as a
         "automaton obtained through the implementation's own child/next-state functions, are validated by TLC "
         "against the same specification. ")
 LEVEL_TEXT = {p: _GEN + TITLES[p] for p in TITLES}
+_SPECIFIC = {
+    "C01": "Decided by: P-ov (MC_Search: all pattern sequences <= 2-3 over {0,1}, all haystacks <= 5-6), the window form (MC_Window: haystacks of every length), the double-array layout with 4-slot blocks and evictions (MC_DoubleArray: Encodes, Sim); replay of every behaviour of that scope; table validation (trie edges for all 256 bytes / all codes, transition function, fail links, output chains) of every recorded automaton, which makes the claim hold for all haystacks of those automata.",
+    "C02": "Decided by: P-std (MC_Search), EmitOK in the window form (every haystack length); replay; recorded find_iter / find_iter_from_iter runs compared with the model and the declarative meaning; table validation.",
+    "C03": "Decided by: P-ll and T-fail-lm (MC_Search over all ordered pattern sequences), MC_Charwise (char-wise bookkeeping pos += skips over real UTF-8); replay on both variants incl. multi-byte label maps; table validation against the specification's leftmost automaton.",
+    "C04": "Decided by: P-lf over all ordered sequences (every registration order of the scope), shadowing in Nfa!AddPattern; replay; recorded leftmost-first runs incl. the `shadow` family; table validation.",
+    "C05": "Decided by: P-ns (MC_Search), window form (output chain head = longest suffix pattern); replay; recorded no-suffix runs (slice, iterator, owned entries); table validation.",
+    "C06": "Decided by: every reported match is a true occurrence carrying the registered value (declarative conjunct, independent of the search method), for 16 value types incl. user-defined ones, 0/MIN/MAX/high-bit/repeated values, positions beyond u8/u16 range (66 000 patterns), patterns longer than 65 535 bytes, before and after a round trip; output tables compared with the specification.",
+    "C07": "Decided by: the index-closure invariant (MC_DoubleArray Closure/NoOob for all nodes x all codes; per recorded table: no Oob answer of the guarded child lookup for any reachable state x any label of the block, len multiple of the block length, bases/fails/output positions in range; also on restored tables), the transcribed UTF-8 decoder (MC_Utf8), and executions of every scenario with debug-assertions (std's unsafe-precondition checks abort => crash event) plus Miri for a subset. Not a proof about machine code.",
+    "C08": "Decided relationally: the char-wise results equal those of the byte-wise twin built from the UTF-8 bytes of the same patterns (same scenario), offsets are character boundaries, both tables are exact or both are not; MC_Charwise shows the agreement at specification level for real 1-4 byte encodings incl. unmapped characters; replay compares both variants in label space.",
+    "C09": "Decided by: round-trip events (equal, remainder handed back untouched, re-serialisation identical), restored automaton = original (normalised table, search results) for all kinds, 16 value types, trailing bytes; simulated API histories with round trips at arbitrary points; Format.tla round trip at design level.",
+    "C10": "Decided by: T-err over all sequences (incl. empty and repeated entries, all kinds) of the scope, NoPanic/RingInv of the exact BuildHelper model; replay of every invalid sequence on both variants x both entry points x builder/type API; recorded collections with defects at random positions, shadowed repeats, shared tails, long mixed-width patterns, index-conversion limits; outcome must be in the documented set and never a panic.",
+    "C11": "Decided relationally: for the same input, every num_free_blocks value gives the same normalised table (incl. phantom edges) and the same search results as the default; closure and state count hold for each; MC_DoubleArray explores nfb 1-3 with 4-slot blocks exhaustively.",
+    "C12": "Decided by: P-lazy (MC_Search, MC_Charwise, MC_Api), interleavings of next() calls (MC_Api exhaustive, simulated histories replayed), counting sources in the real crate: bytes pulled = end of the returned match at every return, = length at None; iterator entry = slice entry.",
+    "C13": "Decided by: Apalache discharges the inductive invariant of Amortized (unbounded n): gotos + hops <= 2n; TLC ties every step of Search to it (PHops, HopsPaid in the window form); per recorded table the ranking (fail links strictly shallower or DEAD, output parents strictly smaller, goto edges form a tree); probe/hop counters of the real transition loops <= 2n on every recorded standard search; hop limit and result cap turn non-termination into events.",
+    "C14": "Decided by: OrderIndependent (MC_DoubleArray: arrays equal for all permutations), Interleaved (MC_Api); recorded rebuilds and permutations must be == and byte-identical (standard, leftmost-longest), clones, purity (automaton unchanged by searches), 4-8 threads on a shared automaton compared with the single-threaded reference. Thread schedules are sampled, not enumerated.",
+    "C15": "Decided by: T-trie (MC_Search): nodes = distinct non-empty prefixes of reportable patterns; recorded num_states = that count = number of slots reachable from the root in the dumped table; num_elements >= num_states; heap_bytes >= 12 * num_states.",
+}
+LEVEL_TEXT = {p: _GEN + _SPECIFIC.get(p, TITLES[p]) for p in TITLES}
+LEVEL_NOTE["C07"] = _COMMON_NOTE + " Memory is not observed by TLA+: out-of-range accesses are detected through the closure invariant, std's debug checks and Miri."
+LEVEL_NOTE["C14"] = _COMMON_NOTE + " Thread interleavings in the real crate are sampled."
+LEVEL_NOTE["C16"] = _COMMON_NOTE + " The binary is observed through stdout, exit status and stderr only."
 LEVEL_TEXT["C16"] = ("TLC checks spec/Daacfind.tla (line filter through the modelled find iterator, colour-depth machine "
                      "over the modelled no-suffix iterator) against the declarative meaning (a line is printed iff a "
                      "pattern occurs in it; highlighted bytes = union of all occurrences) for all small pattern lists "
